@@ -29,7 +29,7 @@ func (ts *TermStore) lookupUF(name string, args ...*Term) *Term {
 
 func (ex *Exec) axioms(cone []*Term) []*Term {
 	var out []*Term
-	var fmts []*Term
+	var fmts, joins []*Term
 	for _, t := range cone {
 		switch t.op {
 		case "uf:trim":
@@ -51,6 +51,8 @@ func (ex *Exec) axioms(cone []*Term) []*Term {
 		case "uf:legacytitle":
 			// the derived title is never blank ("(untitled)" or a trimmed non-empty line)
 			out = append(out, ILt(IntC(0), t), Neq(UF("trim", SInt, t), IntC(0)))
+		case "uf:pathjoin":
+			joins = append(joins, t)
 		case "uf:cleanpath":
 			// Clean never returns "" and is idempotent; on program literals it is computed
 			out = append(out, ILt(IntC(0), t))
@@ -78,6 +80,12 @@ func (ex *Exec) axioms(cone []*Term) []*Term {
 			out = append(out, ILe(IntC(0), t))
 		case "uf:toupper", "uf:tolower", "uf:quote", "uf:trimprefix", "uf:trimsuffix", "uf:replaceall", "uf:boxstr":
 			out = append(out, ILe(IntC(0), t))
+		}
+	}
+	// distinct (directory, name) pairs are distinct paths (names hold no separator)
+	for i := range joins {
+		for j := i + 1; j < len(joins); j++ {
+			out = append(out, Implies(Eq(joins[i], joins[j]), And(Eq(joins[i].args[0], joins[j].args[0]), Eq(joins[i].args[1], joins[j].args[1]))))
 		}
 	}
 	for i := range fmts {
